@@ -9,6 +9,12 @@ SHIPPED_ALL = SHIPPED_QUICK + ['charis_r_gr.ttf', 'Annapurnarc2.ttf', 'MagyarLin
 
 
 def font_bytes(case):
+    if case['kind'] == 'cmap':
+        import props.c13 as c13
+        try:
+            return fontsynth.build_font(c13.base_spec(c13.build_cmap(case['cmap'])))
+        except (ValueError, struct.error):
+            raise Inconclusive()
     if case['kind'] == 'spec':
         try:
             return fontsynth.build_font(case['spec'])
